@@ -110,7 +110,8 @@ end DFS
 /-! ## 2. module sets -/
 
 /-- A .proto file as the module layer sees it: path, the imports fastscan found (source order)
-    and the package (only used by the proto-file-ref targeting). -/
+    and the package (only used by the proto-file-ref targeting).  `imports` lists the path of
+    EVERY import statement, whatever its modifier (`KFile.scan`, section 2b). -/
 structure PFile where
   path : Str
   imports : List Str
@@ -224,6 +225,75 @@ def msucc (ws : WS) (m : Nat) : List Nat :=
     | _ => none)
 
 def msuccO (ws : WS) (m : Nat) : Option (List Nat) := some (msucc ws m)
+
+/-! ## 2b. import modifiers
+
+  `fastscan.Result.Imports` is a list of `{Path, IsPublic, IsWeak}`, one per import statement
+  (`import "x";` / `import public "x";` / `import weak "x";`).  `getModuleDepsRec`, the
+  `FileInfo.Imports()` closure behind ls-files and the image builder read `.Path` only: a `weak` or
+  `public` import resolves to its module, is an edge of the module graph, may be an
+  ImportNotExistError and may close a module cycle exactly like a plain one.  `KFile` is the file
+  with its import STATEMENTS; `KFile.scan` is what the code makes of it (every statement counts)
+  and is what Driver/C10 runs on every protocol line; `KFile.scanSkipWeak` is the COUNTER-MODEL of
+  a `getModuleDepsRec` that `continue`s on `imp.IsWeak` (seeds C10-m10 / C08-m9), kept for the
+  `ik_skip_weak_*_counterexample` theorems of `BufProofs.C10`. -/
+
+/-- The modifier of one import statement as `fastscan.Import` reports it. -/
+inductive ImpKind where
+  | plain
+  | pub
+  | weak
+  deriving DecidableEq, Repr
+
+/-- A .proto file with its import statements (path + modifier) in source order. -/
+structure KFile where
+  path : Str
+  stmts : List (Str × ImpKind)
+  pkg : Str := []
+  deriving DecidableEq, Repr
+
+/-- `for _, imp := range fastscanResult.Imports { … imp.Path … }`: every statement counts. -/
+def KFile.scan (f : KFile) : PFile := { path := f.path, imports := f.stmts.map (·.1), pkg := f.pkg }
+
+/-- COUNTER-MODEL (not the code): `if imp.IsWeak { continue }` in front of the loop body. -/
+def KFile.scanSkipWeak (f : KFile) : PFile :=
+  { path := f.path, imports := (f.stmts.filter (fun x => x.2 != .weak)).map (·.1), pkg := f.pkg }
+
+/-- the file with every modifier replaced by `g`'s choice (same statements, other keywords). -/
+def KFile.reKind (g : Str → ImpKind → ImpKind) (f : KFile) : KFile :=
+  { f with stmts := f.stmts.map (fun x => (x.1, g x.1 x.2)) }
+
+structure KMod where
+  files : List KFile
+  isTarget : Bool
+  isLocal : Bool
+  deriving DecidableEq, Repr
+
+/-- a module set whose files carry their import statements. -/
+structure KWS where
+  mods : List KMod
+  wkt : List PFile
+  deriving Repr
+
+def KMod.scanWith (sc : KFile → PFile) (m : KMod) : Mod :=
+  { files := m.files.map sc, isTarget := m.isTarget, isLocal := m.isLocal }
+
+/-- the module set as the code sees it. -/
+def KWS.scan (k : KWS) : WS := { mods := k.mods.map (KMod.scanWith KFile.scan), wkt := k.wkt }
+
+/-- the module set as the counter-model sees it. -/
+def KWS.scanSkipWeak (k : KWS) : WS := { mods := k.mods.map (KMod.scanWith KFile.scanSkipWeak), wkt := k.wkt }
+
+def KWS.reKind (g : Str → ImpKind → ImpKind) (k : KWS) : KWS :=
+  { k with mods := k.mods.map (fun m => { m with files := m.files.map (KFile.reKind g) }) }
+
+def kmodFiles (k : KWS) (m : Nat) : List KFile := (k.mods[m]?.map (·.files)).getD []
+
+/-- `Module.ModuleDeps()` over import statements. -/
+def moduleDepsK (k : KWS) (r : Nat) : Except DErr DepMap := moduleDeps k.scan r
+
+/-- COUNTER-MODEL: `ModuleDeps()` of a `getModuleDepsRec` that ignores weak imports. -/
+def moduleDepsSkipWeak (k : KWS) (r : Nat) : Except DErr DepMap := moduleDeps k.scanSkipWeak r
 
 /-! ## 3. added modules: de-duplication by OpaqueID -/
 
